@@ -180,22 +180,12 @@ func yamlPipelineB(root *yaml.Node, bounded bool) (ns *dsl.Namespace, perr error
 	}
 	// the position post-pass of ParseYamlInDir (it panics on a node without line / column)
 	missing := 0
-	dsl.Visit(ns, func(self dsl.Visitor, node dsl.Node) {
-		switch node := node.(type) {
-		case *dsl.Namespace:
-		case *dsl.DefinitionMeta:
-			for _, p := range node.TypeParameters {
-				self.Visit(p)
-			}
-		default:
-			nm := node.GetNodeMeta()
-			nm.File = file
-			if nm.Line == 0 || nm.Column == 0 {
-				missing++
-			}
-		}
-		self.VisitChildren(node)
-	})
+	msg, panicked = verifPanics(func() { missing = yamlPositionPass(ns, file) })
+	verifOut("position-pass-panic", msg)
+	verifAssert("position-pass-does-not-panic", !panicked)
+	if panicked {
+		return nil, nil, nil
+	}
 	verifAssert("every-ast-node-has-a-position", missing == 0)
 	if missing != 0 {
 		return nil, nil, nil
@@ -221,6 +211,29 @@ func yamlPipelineB(root *yaml.Node, bounded bool) (ns *dsl.Namespace, perr error
 		verifAssert("validation-error-has-file-and-line", ok)
 	}
 	return ns, nil, verr
+}
+
+// yamlPositionPass: the position post-pass of ParseYamlInDir; returns the number of nodes without line / column
+// (ParseYamlInDir panics on the first one).
+func yamlPositionPass(ns *dsl.Namespace, file string) int {
+	missing := 0
+	dsl.Visit(ns, func(self dsl.Visitor, node dsl.Node) {
+		switch node := node.(type) {
+		case *dsl.Namespace:
+		case *dsl.DefinitionMeta:
+			for _, p := range node.TypeParameters {
+				self.Visit(p)
+			}
+		default:
+			nm := node.GetNodeMeta()
+			nm.File = file
+			if nm.Line == 0 || nm.Column == 0 {
+				missing++
+			}
+		}
+		self.VisitChildren(node)
+	})
+	return missing
 }
 
 // C10Yaml(ctx, depth, pairs, items): totality of UnmarshalYAML + Validate on symbolic node trees.
@@ -256,8 +269,13 @@ func C10Yaml(ctx, depth, pairs, items int) {
 		tag := verifOneOf("typetag", "!vector", "!array", "!map", "!stream", "!union", "!generic")
 		kv = append(kv, g.str("A"), g.mp(tag, g.symKey("k1"), g.node(depth, "x", nil), g.symKey("k2"), g.symScalar("y", yScalarDescSmall)))
 	case 5:
-		name := verifOneOf("defname", "Name", "Rec<T>", "Rec<T, U>", "Rec<T<U>>", "Rec<int*>", "name", "N<", "", "A.B", "int*")
-		nameTag := verifOneOf("defnametag", "!!str", "!!int", "!!null")
+		// the key of a definition: a plain scalar as yaml.v3 resolves it (string, integer, null, boolean) or custom-tagged
+		nd := []string{"Name", "Rec<T>", "Rec<T, U>", "Rec<T<U>>", "Rec<int*>", "name", "N<", "", "A.B", "int*", "3", "null", "tilde", "true", "tagged"}
+		nv := []string{"Name", "Rec<T>", "Rec<T, U>", "Rec<T<U>>", "Rec<int*>", "name", "N<", "", "A.B", "int*", "3", "null", "~", "true", "Name"}
+		nt := []string{"!!str", "!!str", "!!str", "!!str", "!!str", "!!str", "!!str", "!!str", "!!str", "!!str", "!!int", "!!null", "!!null", "!!bool", "!record"}
+		ndesc := verifOneOf("defname", nd...)
+		name := verifMapStr("defnameval", ndesc, nd, nv)
+		nameTag := verifMapStr("defnametag", ndesc, nd, nt)
 		def := g.mp("!record", g.str("fields"), g.mp("!!map", g.str("a"), g.symScalar("ftype", []string{"int", "Foo", "gen", "opt"})))
 		if verifChoose("defkind", 2) == 1 {
 			def = g.symScalar("alias", []string{"int", "Foo", "gen", "vec", "null"})
